@@ -1274,6 +1274,189 @@ def rule_estimator_from_sample(rep, repo):
                   loc=loc, instance=cfg)
 
 
+def digraph_stub():
+  """A directed graph with the part of the networkx API that qgraph uses
+  (stand-in for nx.DiGraph; the algorithms of qgraph are interpreted)."""
+  nodes = {}
+  adj = {}
+
+  def add_nodes_from(pe, a, k):
+    for item in a[0]:
+      n, attrs = item if isinstance(item, (tuple, list)) else (item, {})
+      nodes.setdefault(n, {}).update(attrs)
+      adj.setdefault(n, {})
+
+  def add_edges_from(pe, a, k):
+    for u, v, attrs in a[0]:
+      for n in (u, v):
+        nodes.setdefault(n, {})
+        adj.setdefault(n, {})
+      adj[u][v] = attrs
+
+  def remove_node(pe, a, k):
+    n = a[0]
+    if n not in nodes:
+      raise PyRaise("NetworkXError", "node %r not in graph" % (n,))
+    del nodes[n]
+    del adj[n]
+    for u in adj:
+      adj[u].pop(n, None)
+
+  def edges(pe, a, k):
+    if a:
+      return [(a[0], v) for v in adj[a[0]]]
+    return [(u, v) for u in adj for v in adj[u]]
+  g = Mock("DiGraph", {
+      "nodes": nodes, "__adj__": adj,
+      "add_nodes_from": add_nodes_from, "add_edges_from": add_edges_from,
+      "remove_node": remove_node, "edges": edges,
+      "successors": lambda pe, a, k: list(adj[a[0]]),
+      "predecessors": lambda pe, a, k: [u for u in adj if a[0] in adj[u]],
+      "out_degree": lambda pe, a, k: len(adj[a[0]]),
+      "in_degree": lambda pe, a, k: len([u for u in adj if a[0] in adj[u]]),
+      "__getitem__": lambda pe, a, k: adj[a[0]]})
+  return g, nodes, adj
+
+
+def topo_sort(adj):
+  indeg = {n: 0 for n in adj}
+  for u in adj:
+    for v in adj[u]:
+      indeg[v] += 1
+  order, ready = [], sorted(n for n in adj if indeg[n] == 0)
+  while ready:
+    n = ready.pop(0)
+    order.append(n)
+    for v in adj[n]:
+      indeg[v] -= 1
+      if indeg[v] == 0:
+        ready.append(v)
+  return order
+
+
+def rule_graph_construction(rep, repo):
+  """R9: qgraph.CreateGraph interpreted on a synthetic functional model with
+  two inputs, a Dropout to be skipped, a merge and a fan-out (nx.DiGraph is
+  a stand-in; GenerateGraphFromModel, GraphAddSingleSourceSingleSink,
+  GraphRemoveNode(WithNodeType) are the library's code).  The resulting
+  graph must have exactly the producer -> consumer edges between the
+  remaining layers, each input quantizer on the edge from the source to the
+  consumer of ITS input tensor, every output layer connected to the sink,
+  and the producer's output shape on every edge."""
+  qg = repo.module("qkeras.qtools.qgraph")
+  fn = qg.functions.get("CreateGraph")
+  if fn is None or "GenerateGraphFromModel" not in qg.functions:
+    raise AnalysisError("anchor-missing qgraph.CreateGraph / "
+                        "GenerateGraphFromModel")
+  unit = "%s::CreateGraph" % qg.relpath
+  rep.unit(unit)
+  loc = qg.loc(fn)
+
+  def tensor(name, shape):
+    return Mock("tensor " + name, {
+        "__tname__": name, "shape": shape,
+        "ref": lambda pe, a, k: "ref:" + name,
+        "experimental_ref": lambda pe, a, k: "ref:" + name,
+        "get_shape": lambda pe, a, k: Mock("TensorShape", {
+            "as_list": lambda pe2, a2, k2: list(shape)})})
+
+  def lay(cls, name, inp, out, oshape):
+    m = Mock(name, {"name": name, "input": inp, "output": out,
+                    "output_shape": oshape,
+                    "__class__": Mock("class", {"__name__": cls})})
+    m.attrs["get_output_at"] = lambda pe, a, k: out
+    return m
+  ta, tb = tensor("a", (None, 8)), tensor("b", (None, 6))
+  t1, t1d = tensor("t1", (None, 4)), tensor("t1d", (None, 4))
+  t2, t3 = tensor("t2", (None, 4)), tensor("t3", (None, 4))
+  t4, t5 = tensor("t4", (None, 4)), tensor("t5", (None, 2))
+  for order in ("ab", "ba"):
+    ins = [lay("InputLayer", "in_a", ta, ta, [(None, 8)]),
+           lay("InputLayer", "in_b", tb, tb, [(None, 6)])]
+    if order == "ba":
+      ins.reverse()
+    layers = ins + [
+        lay("QDense", "d1", ta, t1, (None, 4)),
+        lay("Dropout", "drop", t1, t1d, (None, 4)),
+        lay("QDense", "d2", tb, t2, (None, 4)),
+        lay("Add", "add", [t1d, t2], t3, (None, 4)),
+        lay("QActivation", "act", t3, t4, (None, 4)),
+        lay("QDense", "d3", t3, t5, (None, 2))]
+    model = Mock("model", {"layers": layers, "inputs": [ta, tb],
+                           "outputs": [t4, t5]})
+    g, nodes, adj = digraph_stub()
+    made = []
+    fac = Mock("quantizer factory", {
+        "make_quantizer": lambda pe, a, k: made.append(a[0]) or (
+            "converted", a[0]),
+        "make_default_quantizer": lambda pe, a, k: ("default",
+                                                    k.get("mode"))})
+    qfm = Mock("quantizer_factory module", {
+        "QuantizerFactory": lambda pe, a, k: fac})
+    pe = PE(repo, module_overrides={qg.name: {
+        "quantizer_factory_module": qfm, "nx": Mock("networkx", {
+            "DiGraph": lambda pe, a, k: g,
+            "topological_sort": lambda pe, a, k: topo_sort(adj)})}})
+    pe.opaque_ext = True
+    cfg = "two-input model (inputs listed %s)" % order
+    try:
+      res = pe.call(pe.lookup_global("CreateGraph", qg),
+                    [model, ["QA", "QB"]], {})
+    except PyRaise as e:
+      rep.fail("R9", unit, "graph-construction-raises", "%s: raises %s" %
+               (cfg, e), loc=loc, instance=cfg)
+      continue
+    idx = {l.attrs["name"]: i for i, l in enumerate(layers)}
+    name_of = {i: n for n, i in idx.items()}
+    name_of.update({-1: "SOURCE", -2: "SINK"})
+    got = sorted((name_of.get(u, u), name_of.get(v, v)) for u in adj
+                 for v in adj[u])
+    want = sorted([("SOURCE", "d1"), ("SOURCE", "d2"), ("d1", "add"),
+                   ("d2", "add"), ("add", "act"), ("add", "d3"),
+                   ("act", "SINK"), ("d3", "SINK")])
+    rep.check(got == want, "R9", unit, "graph-edges",
+              "%s: edges %s, expected %s" % (cfg, got, want), loc=loc,
+              instance=cfg, observed=str(got))
+    if got != want:
+      continue
+    qs = {name_of[v]: adj[-1][v].get("quantizer") for v in adj[-1]}
+    rep.check(qs == {"d1": ("converted", "QA"), "d2": ("converted", "QB")},
+              "R9", unit, "input-quantizer-on-wrong-edge",
+              "%s: the source edges carry %r; the quantizer given for input "
+              "a belongs on the edge to d1, the one for b on the edge to d2"
+              % (cfg, qs), loc=loc, instance=cfg, observed=str(qs))
+    inner = {(name_of[u], name_of[v]): adj[u][v].get("quantizer")
+             for u in adj for v in adj[u] if u != -1}
+    rep.check(all(q is None for q in inner.values()), "R9", unit,
+              "quantizer-on-inner-edge-before-propagation",
+              "%s: %r" % (cfg, {k_: v_ for k_, v_ in inner.items()
+                                if v_ is not None}), loc=loc, instance=cfg)
+    shapes = {(name_of[u], name_of[v]): adj[u][v].get("shape")
+              for u in adj for v in adj[u] if u != -1 and v != -2}
+    want_shapes = {("d1", "add"): (None, 4), ("d2", "add"): (None, 4),
+                   ("add", "act"): (None, 4), ("add", "d3"): (None, 4)}
+    rep.check({k_: tuple(v_) if isinstance(v_, (list, tuple)) else v_
+               for k_, v_ in shapes.items()} == want_shapes, "R9", unit,
+              "edge-shape", "%s: edge shapes %r, expected the producer's "
+              "output shape %r" % (cfg, shapes, want_shapes), loc=loc,
+              instance=cfg)
+    kept = sorted(name_of[n] for n in nodes)
+    rep.check(kept == sorted(["SOURCE", "SINK", "d1", "d2", "add", "act",
+                              "d3"]) and all(
+        nodes[idx[n]]["layer"][0] is layers[idx[n]] and
+        nodes[idx[n]]["type"] == [layers[idx[n]].attrs["__class__"].attrs[
+            "__name__"]] for n in ("d1", "d2", "add", "act", "d3")),
+              "R9", unit, "graph-nodes",
+              "%s: nodes %s" % (cfg, kept), loc=loc, instance=cfg)
+    rep.check(isinstance(res, (tuple, list)) and len(res) == 2 and
+              res[0] is g and list(res[1]) == [("converted", "QA"),
+                                               ("converted", "QB")], "R9",
+              unit, "returned-quantizer-list",
+              "%s: returns %r" % (cfg, res[1] if isinstance(
+                  res, (tuple, list)) and len(res) == 2 else res), loc=loc,
+              instance=cfg)
+
+
 def run(rep, repo, tier):
   rep.trusted.append("the factories' own arithmetic is C16/C17; here only "
                      "which values are wired where")
@@ -1294,6 +1477,8 @@ def run(rep, repo, tier):
   rep.require_instances("R7", 8)
   rule_estimator_from_sample(rep, repo)
   rep.require_instances("R8", 4)
+  rule_graph_construction(rep, repo)
+  rep.require_instances("R9", 10)
   rep.require_instances("R6", 25)
   rep.require_instances("R4", 14)
   rep.require_instances("R3", 200)
